@@ -96,6 +96,10 @@ func (o *occInst) Log() []string { return append([]string{}, o.log...) }
 func (o *occInst) Close()        {}
 
 func occSpec(name string, c ContainerKind, nkeys, nfill int, aboveThreshold bool, level int) *SeqSpec {
+	return occSpecRel(name, c, nkeys, nfill, aboveThreshold, level, RelSD)
+}
+
+func occSpecRel(name string, c ContainerKind, nkeys, nfill int, aboveThreshold bool, level int, rel KeyRel) *SeqSpec {
 	var events []MIn
 	for k := 0; k < nkeys; k++ {
 		v := k + 1
@@ -110,7 +114,7 @@ func occSpec(name string, c ContainerKind, nkeys, nfill int, aboveThreshold bool
 	}
 	return &SeqSpec{Name: name, Events: names, New: func() SeqInst {
 		emptyKeyZero = false
-		lay := layoutFor(RelSD)
+		lay := layoutFor(rel)
 		m := newContainer(c, lay)
 		for j := 0; j < nfill; j++ {
 			m.Store(fillTarget+j, 1000+j)
@@ -389,6 +393,17 @@ func genC11(tier string) []*Scenario {
 				out = append(out, &Scenario{Name: name, Prop: "C11", Seq: occSpec(name, c, nk, nfill, above, lvl), ExpectOutcomes: 2})
 			}
 		}
+	}
+	// (a') the same with a key whose tag is all zero, and with zero-tag keys alone in their buckets across resizes
+	for _, c := range []ContainerKind{CMap, CMapOfInt} {
+		for _, nfill := range []int{0, c.slots() - 1, c.slots()} {
+			for _, above := range []bool{false, true} {
+				name := fmt.Sprintf("C11/occupancy/%s/zero-tag-key/fillers-in-chain=%d/aboveGrowThreshold=%v", c, nfill, above)
+				out = append(out, &Scenario{Name: name, Prop: "C11", Seq: occSpecRel(name, c, 3, nfill, above, lvl, RelZeroSD), ExpectOutcomes: 2})
+			}
+		}
+		name := fmt.Sprintf("C11/occupancy/%s/zero-tag-keys-alone-in-their-buckets/aboveGrowThreshold", c)
+		out = append(out, &Scenario{Name: name, Prop: "C11", Seq: occSpecRel(name, c, 3, 0, true, lvl, RelZeroDD), ExpectOutcomes: 2})
 	}
 	// (b)
 	n, depth := 1200, 3
